@@ -225,3 +225,10 @@ Proof. rewrite gen_wpolicy_replace. apply replace_last_write. Qed.
     of the C07 check tries tokens of every listed size. *)
 Lemma gen_int_literals_known : gen_int_literals = [420%N; 55296%N; 57344%N].
 Proof. vm_compute. reflexivity. Qed.
+
+(** The file readers are stateless (gen/jsonx_own.go [gen_reader_state]):
+    ReadFile, ReadFileMaybeJSON, ReadSeriesFile, unmarshalFile and the Decoder
+    constructors mention no package-level variable and make no file-status
+    call (os.Stat, ModTime): nothing a cache could be kept in or validated by. *)
+Lemma gen_readfile_stateless : gen_reader_state = [].
+Proof. vm_compute. reflexivity. Qed.
